@@ -581,13 +581,11 @@ Lemma refines_getattr sg st n :
 Proof.
   intros V I. unfold refines_step, step, step_w. cbn [spec_step fst].
   split; [|split; [reflexivity|exact I]].
-  unfold getattr. rewrite abs_unfold. cbn [sp_prefix sp_named].
-  destruct (find_param sg n) as [p|] eqn:F.
-  - destruct (pk p) eqn:K; try reflexivity; rewrite spec_cur;
-      destruct (sget st (KName n)); try reflexivity;
-      destruct (pfactory p); try reflexivity; destruct (pdefault p); reflexivity.
-  - rewrite abs_named_get; [|apply find_param_none_slot, F].
-    destruct (sget st (KName n)); reflexivity.
+  unfold getattr. rewrite abs_unfold. cbn [sp_prefix sp_named]. rewrite spec_cur.
+  destruct (sget st (KName n)); [reflexivity|].
+  destruct (find_param sg n) as [p|] eqn:F; [|reflexivity].
+  destruct (pk p) eqn:K; try reflexivity;
+    destruct (pfactory p); try reflexivity; destruct (pdefault p); reflexivity.
 Qed.
 
 Lemma abs_sset_name sg st n v :
